@@ -57,31 +57,51 @@ class C15(Config):
     audit_dirs = ["Lib", "Gen", "C15"]
     header = ("From V.Lib Require Import Base.\n"
               "From V.Gen Require Import C15Tables.\n"
-              "From V.C15 Require Import Model Spec Sem Corr Wf.\n"
+              "From V.C15 Require Import Model Spec Sem QModel Corr Wf.\n"
               "Local Open Scope Z_scope.")
     bin = "c15"
     release_too = True
     n_tags = None
+    harness_timeout = 2400
     shard_size = 1200
     classes = {1: "C15-empty-range-insert-panics"}
-    rule = ("Part A: every (leaf, insertion, force) triple exhaustively on a small height domain with all 7 priorities "
-            "and empty ranges, exhaustive range shapes for 2 insertions, random 3-5 insertion sequences, wallet-like "
-            "sequences (sorted stored rows then updates), long random sequences up to u32::MAX; after every insertion "
-            "into_vec of a clone is observed; distinct = distinct (sequence, observations) lines; every line is an "
-            "executed sequence of public API calls with the observed outcome")
+    rule = ("Part A (pure tree, public feature-gated API): every (leaf, insertion, force) triple exhaustively on a small height domain "
+            "with all 7 priorities and empty ranges (quick 0..3, thorough 0..6), exhaustive range shapes for 2 insertions, random 3-5 "
+            "insertion sequences, wallet-like sequences (sorted stored rows then updates, last possibly empty), long random sequences up "
+            "to u32::MAX; into_vec of a clone observed after every insertion. Part B (SQLite backend): histories of update_chain_tip, "
+            "notify_scan_complete (prefix/suffix/whole of a suggested range, with and without note positions and subtree roots), "
+            "queue_rescans, prune_scan_queue_below on wallets with different birthdays; boundary histories (tip below birthday, u32::MAX, "
+            "empty ranges); client loops on real generated blocks through scan_cached_blocks/put_blocks with truncate_to_height rewinds, "
+            "run to quiescence; scan_queue rows and suggest_scan_ranges compared after every operation. distinct = distinct case lines; "
+            "every line is an executed public API call sequence with its observed outcome")
     trusted_base = [
         "Coq 8.16.1 kernel, vm_compute (no native_compute)",
-        "axioms: none expected (Print Assumptions audited on every theorem)",
+        "axioms: none (Print Assumptions audited on every theorem)",
         "vlib/props/c15.py extractors (ScanPriority variant order under derive(Ord); priority_code / parse_priority_code tables; PRUNING_DEPTH, VERIFY_LOOKAHEAD)",
         "harness/wallet/src/bin/c15.rs printers and catch_unwind wrappers; vlib case-file generator",
-        "hand transcription of spanning_tree.rs / scanning.rs into coq/C15/Model.v, tied by the correspondence run",
+        "hand transcription of spanning_tree.rs / scanning.rs (coq/C15/Model.v) and of wallet/scanning.rs, trim_scan_queue_to, fully_scanned_height (coq/C15/QModel.v), tied by the correspondence run",
+        "SQLite itself and the SQL text of the queue statements (modelled as list filters/sorts; UNIQUE constraints modelled)",
+        "part B context read back by the harness with its own SELECTs (blocks MAX(height), accounts MIN(birthday_height), *_tree_shards rows); "
+        "in the low-level histories `blocks` rows are primed by INSERT to mimic put_blocks, the client-loop histories use real put_blocks",
+        "shard height 16 (SAPLING/ORCHARD/IRONWOOD_SHARD_HEIGHT) written by hand in QModel.v",
     ]
     assumptions = [
-        "block heights are u32 (BlockHeight); the tree performs only comparisons, min and max on them",
-        "every inserted range is non-empty (start < end) for the no-panic / pointwise / canonical theorems; "
-        "the public tree API panics on some sequences with an empty range (known finding C15-empty-range-insert-panics)",
+        "block heights are u32 (BlockHeight, saturating +/-); the tree performs only comparisons, min and max on them",
+        "tree theorems: every inserted range non-empty, except possibly the last one; the public tree API panics on some sequences "
+        "with an earlier empty range (known finding C15-empty-range-insert-panics, also reachable through WalletDb::queue_rescans)",
+        "queue theorems: the stored queue is canonical, the query range selects at least one stored row (touches: overlapping or adjacent), "
+        "entries lie inside the query range; update_chain_tip: wallet birthday is not exactly tip + 1 (then its ChainTip entry is empty and first)",
+        "termination: the database invariant 'no Scanned height above MAX(blocks.height)' for chain-tip updates; rewinds are accounted by "
+        "C15_trim (they re-open exactly the heights above the truncation height) and are not part of the inductive run",
     ]
-    partial_clauses = []
+    partial_clauses = [
+        "queue_inv is proved per operation (replace_queue_entries, scan_complete, update_chain_tip, trim) for touching queries on a non-empty "
+        "canonical queue; the first insertion into an empty table, queue_rescans and prune_scan_queue_below are covered by the model and the "
+        "correspondence run only",
+        "extend_range's shard lookups are modelled from the shard rows the harness reads back; mark_stabilized_notes is outside the model",
+        "at quiescence the theorem gives 'every covered height is Scanned or Ignored'; that no height between the birthday and the tip is "
+        "Ignored is checked on the client-loop runs (QLoop), not proved",
+    ]
 
     @staticmethod
     def gen():
